@@ -370,6 +370,21 @@ func runC03(rc *fw.RunCtx) {
 		})
 	})
 	s.Until = func() bool { return finished && len(aliveExcept(s, "vm.watcher", "file.watcher")) == 0 }
+	if raceBuild {
+		// phase R: a seeded serial prefix, then all tasks are released together;
+		// the window is closed again after a short spin so that runaway
+		// programs come back under the step limit
+		prefix := sched.Intn(200)
+		spin := 2000 + sched.Intn(400000)
+		s.AtStep(prefix, "release-parallel-window", func() {
+			rc.Hit("fault_parallel_window")
+			s.FreeRun()
+			for i := 0; i < spin; i++ {
+				c06Spin.Add(1)
+			}
+			s.EndFreeRun()
+		})
+	}
 	verdict := s.Run()
 	s.Shutdown(func() { cancel1() }, func() { cancel2() }, func() {
 		if staleCancel != nil {
@@ -391,6 +406,22 @@ func runC03(rc *fw.RunCtx) {
 	}
 	rc.NonTrivial = fired > 0
 	rc.Sample = map[string]any{"program": src, "strategy": strat.Name(), "verdict": verdict.String(), "os_faults": sos.Injected, "schedule": s.RenderTrace(30)}
+	if raceBuild {
+		rc.Hit("phase_R")
+		for _, rep := range newRaceReports() {
+			cls, inRisor := raceClass(rep)
+			if !inRisor {
+				rc.Hit("race_reports_outside_risor")
+				continue
+			}
+			if len(rep) > 1800 {
+				rep = rep[:1800] + "…"
+			}
+			rc.Sample["race_report"] = rep
+			rc.Violate(cls, "race detector report during this run (a data race on interpreter state is a fatal 'concurrent map' crash waiting to happen):\n%s", rep)
+			return
+		}
+	}
 	if len(panics) > 0 {
 		apiName := panics[0]
 		if i := strings.Index(apiName, ":"); i > 0 {
